@@ -5,8 +5,6 @@ package c05
 
 import (
 	"fmt"
-	"github.com/nspcc-dev/neo-go/pkg/core/transaction"
-	"github.com/nspcc-dev/neo-go/pkg/neotest"
 	"math/big"
 	"sort"
 	"strings"
@@ -15,11 +13,15 @@ import (
 	"github.com/nspcc-dev/neo-go/pkg/config"
 	"github.com/nspcc-dev/neo-go/pkg/core"
 	"github.com/nspcc-dev/neo-go/pkg/core/block"
+	"github.com/nspcc-dev/neo-go/pkg/core/native/nativehashes"
 	"github.com/nspcc-dev/neo-go/pkg/core/native/nativeids"
 	"github.com/nspcc-dev/neo-go/pkg/core/state"
+	"github.com/nspcc-dev/neo-go/pkg/core/transaction"
 	"github.com/nspcc-dev/neo-go/pkg/encoding/bigint"
+	"github.com/nspcc-dev/neo-go/pkg/neotest"
 	"github.com/nspcc-dev/neo-go/pkg/smartcontract/trigger"
 	"github.com/nspcc-dev/neo-go/pkg/util"
+	"github.com/nspcc-dev/neo-go/pkg/vm/opcode"
 	"github.com/nspcc-dev/neo-go/pkg/vm/stackitem"
 	"github.com/nspcc-dev/neo-go/pkg/vm/vmstate"
 	"github.com/nspcc-dev/neo-go/verifharness/vlib/ev"
@@ -331,6 +333,88 @@ func TestCheck(t *testing.T) {
 					break
 				}
 				run.Obs("full_blocks_checked", 1)
+			}
+		}
+		// a deposit spent to the last unit: a Notary-paid transaction whose fees equal
+		// the payer's deposit exactly (the record must go, Notary's GAS must still be
+		// the sum of the deposits); conservation is evaluated by OnBlock as usual
+		if hist.P.Rejected == nil && hist.P.BC.GetContractState(hist.P.NotaryH) != nil {
+			p := hist.P
+			for k, u := range p.Users {
+				dep := p.BC.GetUtilityTokenBalance(nativehashes.Notary, u.Hash()).Int64()
+				if dep < 3000_0000 || u.Blocked {
+					continue
+				}
+				tx := vchain.NotaryAssistedTx(t, p.BC, u, dep, p.BC.BlockHeight()+1, uint32(0x5e000000+hi*64+k))
+				if tx == nil || tx.SystemFee+tx.NetworkFee != dep {
+					continue
+				}
+				if p.AddBlock(tx) == nil {
+					run.Violation("producer-rejected-own-block:deposit-spent-exactly", fmt.Sprint("h", hi), p.Rejected.Error(), nil)
+					break
+				}
+				run.Obs("notary_deposits_spent_to_the_last_unit", 1)
+				if left := p.BC.GetUtilityTokenBalance(nativehashes.Notary, u.Hash()).Int64(); left != 0 {
+					run.Violation("notary-deposit-left-after-it-was-spent-exactly", id(p.BC.BlockHeight()), fmt.Sprintf("user %d: deposit %d, fees %d, deposit afterwards %d", k, dep, tx.SystemFee+tx.NetworkFee, left), nil)
+				}
+			}
+		}
+		// a signed block carrying a transaction its sender cannot pay for, offered to a
+		// node that does not verify transactions of blocks: whether it refuses the
+		// block or not, no balance may go negative and the supply laws hold
+		if hist.P.Rejected == nil && hi%3 == 0 {
+			p := hist.P
+			cid := fmt.Sprintf("h%d/unpayable-transaction-at-a-non-verifying-node", hi)
+			if run.Want(cid) {
+				rep, err := vchain.OpenReplica(t, vchain.ReplicaCfg{Name: "noverify", Cfg: func(c *config.Blockchain) { proto(c); c.VerifyTransactions = false }})
+				if err != nil {
+					t.Fatal(err)
+				}
+				ok := true
+				for i := range p.Raw {
+					if err := rep.AddRaw(p.Raw[i]); err != nil {
+						run.Violation("non-verifying-replica-rejects-a-history-block", cid, fmt.Sprintf("block %d: %v", i+1, err), nil)
+						ok = false
+						break
+					}
+				}
+				if ok {
+					var txs []*transaction.Transaction
+					for k, u := range p.Users[:3] {
+						bal := p.BC.GetUtilityTokenBalance(u.Hash(), util.Uint160{}).Int64()
+						tx := transaction.New([]byte{byte(opcode.PUSH1)}, 1_0000_0000)
+						tx.Nonce = uint32(0x5f000000 + hi*64 + k)
+						tx.ValidUntilBlock = p.BC.BlockHeight() + 1
+						tx.Signers = []transaction.Signer{{Account: u.Hash(), Scopes: transaction.None}}
+						neotest.AddNetworkFee(t, p.BC, tx, u.S)
+						tx.NetworkFee += bal // system fee + network fee is above the balance
+						if err := u.S.SignTx(p.BC.GetConfig().Magic, tx); err != nil {
+							t.Fatal(err)
+						}
+						txs = append(txs, tx)
+					}
+					blk := p.NewBlock(txs...)
+					run.Case(cid, true)
+					var aerr error
+					func() {
+						defer func() {
+							if x := recover(); x != nil {
+								aerr = fmt.Errorf("panic: %v", x)
+							}
+						}()
+						aerr = rep.BC.AddBlock(blk)
+					}()
+					if aerr != nil {
+						run.Obs("blocks_with_unpayable_transactions_refused_by_a_non_verifying_node", 1)
+					} else {
+						run.Obs("blocks_with_unpayable_transactions_accepted_by_a_non_verifying_node", 1)
+					}
+					_, bad := conservation(rep.BC, nil, rep.BC.GetContractState(p.NotaryH) != nil, &counters{})
+					for _, v := range bad {
+						run.Violation(v.sig+":non-verifying-node", cid, fmt.Sprintf("after the block with unpayable transactions (AddBlock: %v): %s", aerr, v.detail), nil)
+					}
+				}
+				rep.Close()
 			}
 		}
 		stop = true
